@@ -7,7 +7,8 @@
 // Rewrites: import "sync" -> vsync, "sync/atomic" -> vatomic (alias imports, so
 // all selectors keep their spelling); time.{Now,Sleep,Since,Until} -> vtime.*;
 // syscall.{Socket,Bind,Getsockname,Sendto,Recvfrom,Close} -> vsys.*;
-// os/user.{Lookup,LookupId,LookupGroup,LookupGroupId} -> vuser.* (account database seam).
+// os/user.{Lookup,LookupId,LookupGroup,LookupGroupId} -> vuser.* (account database seam);
+// os.{Getuid,Geteuid,Getgid,Getegid,Getpid,Getppid,Getenv,LookupEnv,Hostname} -> vos.* (process identity seam).
 package main
 
 import (
@@ -21,6 +22,7 @@ import (
 	"go/token"
 	"os"
 	"path/filepath"
+	"reflect"
 	"sort"
 	"strconv"
 	"strings"
@@ -30,6 +32,7 @@ const modPath = "github.com/elastic/go-libaudit/v2"
 
 var timeFuncs = map[string]bool{"Now": true, "Sleep": true, "Since": true, "Until": true}
 var sysFuncs = map[string]bool{"Socket": true, "Bind": true, "Getsockname": true, "Sendto": true, "Recvfrom": true, "Close": true}
+var osFuncs = map[string]bool{"Getuid": true, "Geteuid": true, "Getgid": true, "Getegid": true, "Getpid": true, "Getppid": true, "Getenv": true, "LookupEnv": true, "Hostname": true}
 var userFuncs = map[string]bool{"Lookup": true, "LookupId": true, "LookupGroup": true, "LookupGroupId": true}
 
 type stats struct {
@@ -153,7 +156,7 @@ func rewrite(src, dst string, st *stats, withSync bool) (bool, error) {
 		return false, err
 	}
 	changed := false
-	timeName, sysName, userName := "", "", ""
+	timeName, sysName, userName, osName := "", "", "", ""
 	for _, imp := range f.Imports {
 		path, _ := strconv.Unquote(imp.Path.Value)
 		if !withSync && (path == "sync" || path == "sync/atomic") {
@@ -184,6 +187,11 @@ func rewrite(src, dst string, st *stats, withSync bool) (bool, error) {
 			if imp.Name != nil {
 				sysName = imp.Name.Name
 			}
+		case "os":
+			osName = "os"
+			if imp.Name != nil {
+				osName = imp.Name.Name
+			}
 		case "os/user":
 			userName = "user"
 			if imp.Name != nil {
@@ -191,7 +199,7 @@ func rewrite(src, dst string, st *stats, withSync bool) (bool, error) {
 			}
 		}
 	}
-	useVtime, useVsys, useVuser := false, false, false
+	useVtime, useVsys, useVuser, useVos := false, false, false, false
 	ast.Inspect(f, func(n ast.Node) bool {
 		sel, ok := n.(*ast.SelectorExpr)
 		if !ok {
@@ -211,6 +219,11 @@ func rewrite(src, dst string, st *stats, withSync bool) (bool, error) {
 			useVsys = true
 			st.Rewrites["syscall."+sel.Sel.Name]++
 		}
+		if osName != "" && id.Name == osName && osFuncs[sel.Sel.Name] {
+			id.Name = "vos__"
+			useVos = true
+			st.Rewrites["os."+sel.Sel.Name]++
+		}
 		if userName != "" && id.Name == userName && userFuncs[sel.Sel.Name] {
 			id.Name = "vuser__"
 			useVuser = true
@@ -218,6 +231,13 @@ func rewrite(src, dst string, st *stats, withSync bool) (bool, error) {
 		}
 		return true
 	})
+	if withSync {
+		if n := rewriteChannels(f); n > 0 {
+			addImport(f, "vchan__", modPath+"/vshim/vchan")
+			st.Rewrites["channel operations"] += n
+			changed = true
+		}
+	}
 	if useVtime {
 		addImport(f, "vtime__", modPath+"/vshim/vtime")
 		changed = true
@@ -228,6 +248,10 @@ func rewrite(src, dst string, st *stats, withSync bool) (bool, error) {
 	}
 	if useVuser {
 		addImport(f, "vuser__", modPath+"/vshim/vuser")
+		changed = true
+	}
+	if useVos {
+		addImport(f, "vos__", modPath+"/vshim/vos")
 		changed = true
 	}
 	if !changed {
@@ -243,6 +267,9 @@ func rewrite(src, dst string, st *stats, withSync bool) (bool, error) {
 	if useVuser && !usesPkg(f, userName) {
 		dropImport(f, "os/user")
 	}
+	if useVos && !usesPkg(f, osName) {
+		dropImport(f, "os")
+	}
 	var buf bytes.Buffer
 	if err := printer.Fprint(&buf, fset, f); err != nil {
 		return false, err
@@ -251,6 +278,126 @@ func rewrite(src, dst string, st *stats, withSync bool) (bool, error) {
 		return false, err
 	}
 	return true, os.WriteFile(dst, buf.Bytes(), 0o644)
+}
+
+// rewriteChannels turns channel operations into calls of the vchan shim: `<-ch` -> vchan__.Recv(ch),
+// `v, ok := <-ch` -> vchan__.Recv2(ch), `ch <- v` -> vchan__.Send(ch, v), close(ch) -> vchan__.Close(ch).  The
+// communication clause of a select case stays as it is (a select is not modelled; the scheduler's watchdog reports a
+// thread that blocks in one).  A generic walk over the syntax tree by reflection, replacing nodes in their parents.
+func rewriteChannels(f *ast.File) int {
+	n := 0
+	call := func(fn string, args ...ast.Expr) *ast.CallExpr {
+		return &ast.CallExpr{Fun: &ast.SelectorExpr{X: ast.NewIdent("vchan__"), Sel: ast.NewIdent(fn)}, Args: args}
+	}
+	isRecv := func(e ast.Expr) (*ast.UnaryExpr, bool) {
+		for {
+			p, ok := e.(*ast.ParenExpr)
+			if !ok {
+				break
+			}
+			e = p.X
+		}
+		u, ok := e.(*ast.UnaryExpr)
+		return u, ok && u.Op == token.ARROW
+	}
+	exprT := reflect.TypeOf((*ast.Expr)(nil)).Elem()
+	stmtT := reflect.TypeOf((*ast.Stmt)(nil)).Elem()
+	var walk func(v reflect.Value)
+	fix := func(v reflect.Value) { // v: a settable value of interface type ast.Expr / ast.Stmt
+		if v.IsNil() {
+			return
+		}
+		switch x := v.Interface().(type) {
+		case *ast.UnaryExpr:
+			if x.Op == token.ARROW {
+				walk(reflect.ValueOf(x))
+				v.Set(reflect.ValueOf(call("Recv", x.X)))
+				n++
+				return
+			}
+		case *ast.SendStmt:
+			walk(reflect.ValueOf(x))
+			v.Set(reflect.ValueOf(&ast.ExprStmt{X: call("Send", x.Chan, x.Value)}))
+			n++
+			return
+		case *ast.CallExpr:
+			if id, ok := x.Fun.(*ast.Ident); ok && id.Name == "close" && id.Obj == nil && len(x.Args) == 1 {
+				walk(reflect.ValueOf(x))
+				x.Fun = &ast.SelectorExpr{X: ast.NewIdent("vchan__"), Sel: ast.NewIdent("Close")}
+				n++
+				return
+			}
+		case *ast.AssignStmt:
+			if len(x.Lhs) == 2 && len(x.Rhs) == 1 {
+				if u, ok := isRecv(x.Rhs[0]); ok {
+					walk(reflect.ValueOf(u))
+					x.Rhs[0] = call("Recv2", u.X)
+					n++
+					return
+				}
+			}
+		}
+		walk(v.Elem())
+	}
+	walk = func(v reflect.Value) {
+		switch v.Kind() {
+		case reflect.Ptr:
+			if v.IsNil() {
+				return
+			}
+			if cc, ok := v.Interface().(*ast.CommClause); ok {
+				for i := range cc.Body {
+					fix(reflect.ValueOf(&cc.Body[i]).Elem())
+				}
+				return
+			}
+			if vs, ok := v.Interface().(*ast.ValueSpec); ok && len(vs.Names) == 2 && len(vs.Values) == 1 {
+				if u, ok := isRecv(vs.Values[0]); ok {
+					walk(reflect.ValueOf(u))
+					vs.Values[0] = call("Recv2", u.X)
+					n++
+					return
+				}
+			}
+			if _, ok := v.Interface().(*ast.Object); ok {
+				return
+			}
+			if _, ok := v.Interface().(*ast.Scope); ok {
+				return
+			}
+			walk(v.Elem())
+		case reflect.Struct:
+			for i := 0; i < v.NumField(); i++ {
+				fv := v.Field(i)
+				if !fv.CanSet() {
+					continue
+				}
+				switch {
+				case fv.Type() == exprT || fv.Type() == stmtT:
+					fix(fv)
+				case fv.Kind() == reflect.Slice:
+					for j := 0; j < fv.Len(); j++ {
+						ev := fv.Index(j)
+						if ev.Type() == exprT || ev.Type() == stmtT {
+							fix(ev)
+						} else {
+							walk(ev)
+						}
+					}
+				case fv.Kind() == reflect.Ptr || fv.Kind() == reflect.Interface:
+					walk(fv)
+				}
+			}
+		case reflect.Interface:
+			if !v.IsNil() {
+				walk(v.Elem())
+			}
+		}
+	}
+	for _, d := range f.Decls {
+		walk(reflect.ValueOf(d))
+	}
+	return n
 }
 
 func usesPkg(f *ast.File, name string) bool {
